@@ -453,7 +453,12 @@ Definition timer_stable (n : option nat) (t : timer) : bool :=
   end.
 Definition actor_stable (n : option nat) (x : actor) : bool :=
   match a_phase x with
-  | PhDone => true
+  | PhDone =>
+      (* when the run ends no timer task of a terminated actor is left over *)
+      match n with
+      | Some _ => true
+      | None => forallb (fun t => match t_st t with TsEnded => true | _ => false end) (a_timers x)
+      end
   | PhIdle =>
       match a_queue x with
       | [] => negb (closed x) || sc_stream (a_cfg x) && false
@@ -733,6 +738,7 @@ Definition step (s : sys) (e : event) : res sys :=
       | EndCancelled, ph =>
           check a_crashing x else 1402 ;;
           check (match ph with PhDone => false | _ => true end) else 1404 ;;
+          check negb (in_user_code ph) else 1405 ;;
           teardown s a x XCancel NDropped
       | _, _ => Rej 1403
       end
@@ -774,7 +780,9 @@ Definition step (s : sys) (e : event) : res sys :=
           match t_st t with
           | TsNew => Acc (put_actor s a (put_timer x k (set_t_st (TsSleeping (now s + d)) t)))
           | TsParked o =>
-              (* its waiting submit has returned: the transient strong sender is gone *)
+              (* its waiting submit has returned: the transient strong sender is gone; only
+                 interval_with loops *)
+              check (match t_kind t with TIntervalWith => true | _ => false end) else 4208 ;;
               check negb (parked_op x o) else 4205 ;;
               check (1 <=? a_tx x) && (1 <=? a_ftx x) else 4206 ;;
               let x1 := set_a_inflight (pred (a_inflight x)) (sub_refs 1 1 x) in
@@ -789,6 +797,7 @@ Definition step (s : sys) (e : event) : res sys :=
       | None => Rej 2303
       | Some t =>
           check negb (t_aborted t) else 2304 ;;
+          check (match t_kind t with TDelayedExec => false | _ => true end) else 2307 ;;
           match t_st t with
           | TsSleeping u =>
               check u <=? now s else 2305 ;;
@@ -835,7 +844,7 @@ Definition step (s : sys) (e : event) : res sys :=
           | TsEnded => Rej 1803
           | TsParked o =>
               (* aborted while its waiting submit was parked, or (delayed_send) the submit returned *)
-              check t_aborted t || negb (parked_op x o) else 1804 ;;
+              check t_aborted t || negb (parked_op x o) && (match t_kind t with TDelayedSend => true | _ => false end) else 1804 ;;
               check (1 <=? a_tx x) && (1 <=? a_ftx x) else 1805 ;;
               let x1 := set_a_inflight (pred (a_inflight x)) (sub_refs 1 1 x) in
               Acc (put_actor s a (put_timer x1 k (set_t_st TsEnded t)))
@@ -915,6 +924,12 @@ Definition step (s : sys) (e : event) : res sys :=
           | None => Rej 3206
           end
       end
+  | EvBcastEnd a ty =>
+      (* send_to_children returned: it made one submission per child registered under [ty] *)
+      x <- get_actor s a 4401 ;;
+      check in_user_code (a_phase x) else 4402 ;;
+      check Nat.eqb (a_bcur x) (length (filter (fun c => Nat.eqb (fst c) ty) (a_children x))) else 4403 ;;
+      Acc s
   | EvQuery c h running b =>
       match handles s h with
       | None => Rej 3801
